@@ -3,7 +3,8 @@ from common import LEAN_TB
 CHECK = {
     "title": "Emitted OCI artifacts are well-formed and mirror the configuration",
     "modules": ["Apko.Proofs.Lemmas.OciTar", "Apko.Proofs.Lemmas.OciList", "Apko.Proofs.C12"],
-    "suites": [("oci", 300, 6000)],
+    "suites": [("oci", 300, 6000), ("build-concurrent", 12, 150)],
+    "race_suites": ["build-concurrent"],
     "fact_prefixes": ["index.go", "image.go", "types.go"],
     "hashes": {
         "pkg/build/oci/image.go:BuildImageFromLayers": "d44838d5625bdafc",
@@ -27,7 +28,7 @@ CHECK = {
         "go-containerregistry mutate/tarball/layout/validate and cosign signed wrappers",
         "extractor's Go-to-Lean translation of straight-line int64 arithmetic (Int.tmod/Int.tdiv for %//; no overflow below 2^63)",
     ],
-    "rule": "a case = one image configuration (entrypoint shell/command with quoting, cmd, env map incl. PATH/SSL_CERT_FILE and odd keys, annotations incl. the three reserved keys, volumes with duplicates, user, workdir, stop signal, vcs-url with 0..2 '@'), 1-10 architectures (subsets of AllArchs, apk aliases, unknown strings, the arm/v6+arm/v7 pair), 1-5 synthetic layers per image (shared and repeated layers), 1-4 tags stretched so that manifest.json lands on / next to a 512-byte boundary in 60% of the cases; steps: config mapping per image (verdict by the Lean Spec on Go's config JSON), image/index/bundle/tarball well-formedness (byte oracles), index entries, tag→image map, block layout of the bundle, model reader vs archive/tar; a step is trivial when the build fails on a shlex error; distinct = distinct protocol lines",
+    "rule": "build-concurrent (race build): whole 3-4 architecture builds through internal/cli under the race detector, index must list one manifest per requested architecture; a case = one image configuration (entrypoint shell/command with quoting, cmd, env map incl. PATH/SSL_CERT_FILE and odd keys, annotations incl. the three reserved keys, volumes with duplicates, user, workdir, stop signal, vcs-url with 0..2 '@'), 1-10 architectures (subsets of AllArchs, apk aliases, unknown strings, the arm/v6+arm/v7 pair), 1-5 synthetic layers per image (shared and repeated layers), 1-4 tags stretched so that manifest.json lands on / next to a 512-byte boundary in 60% of the cases; steps: config mapping per image (verdict by the Lean Spec on Go's config JSON), image/index/bundle/tarball well-formedness (byte oracles), index entries, tag→image map, block layout of the bundle, model reader vs archive/tar; a step is trivial when the build fails on a shlex error; distinct = distinct protocol lines",
     "assumptions": [
         "offsets and sizes stay below 2^63 (Go int64 arithmetic is modelled on unbounded integers)",
         "entry names written by go-containerregistry and BuildIndex fit a plain ustar header (no PAX records); observed by the raw block parser on every case",
